@@ -66,7 +66,9 @@ def dress(rng):
     return "".join(c for c in DRESS if rng.chance(1, 3))
 
 
-def files_of(ps, rng, missing=False, dressed=True):
+def files_of(ps, rng, missing=False, dressed=True, headerless=False):
+    """headerless: one file in eight has NO class header (flag n): it declares no class — whoever names it as parent has a
+    parent without a class — but is read by the builder and takes its place in its chunk"""
     out = []
     for i, p in enumerate(ps):
         mem = [recase(m, rng) for m in MEMBERS if rng.chance(3, 5)]
@@ -76,6 +78,8 @@ def files_of(ps, rng, missing=False, dressed=True):
             par = recase(NAMES[p], rng)
         # one file in three also carries USE sites of every method name of the workspace (flag h; the model ignores it)
         flags = ("h" if rng.chance(1, 3) else "") + (dress(rng) if dressed else "")
+        if headerless and rng.chance(1, 8):
+            flags = "n" + flags.replace("h", "")
         out.append("%s:%s:%s%s" % (NAMES[i], par, "+".join(mem) or "-", (":-:" + flags) if flags else ""))
     return ",".join(out)
 
@@ -92,6 +96,13 @@ def gen_dressed(ctx, cases):
             for chunk in (1, 2):
                 cases.append("tree %s %d 2 c -" % (fs, chunk))
                 ctx.count("dressed headers / encodings (deterministic)")
+    # a file WITHOUT class header at every position (named as parent by the classes below it), alone and dressed
+    for where in range(4):
+        for fl in ("n", "ncl", "nbmr"):
+            fs = ",".join("%s:%s:%s%s" % (n, p, m, (":-:" + fl) if i == where else (":-:h" if i == 2 else "")) for i, (n, p, m) in enumerate(shape))
+            for chunk, ch in ((1, ""), (1, "0.1.1"), (2, "1"), (3, "")):
+                cases.append("tree %s %d 2 c%s -" % (fs, chunk, ch))
+                ctx.count("file without class header among the classes (deterministic)")
 
 
 def random_forest(n, rng):
@@ -134,7 +145,7 @@ def gen_cases(ctx):
     # larger forests, three workers, longer choice lists (candidates can be 3 wide)
     for _ in range(300 if quick else 20000):
         n = 5 + ctx.rng.below(2)
-        fs = files_of(random_forest(n, ctx.rng), ctx.rng, missing=True)
+        fs = files_of(random_forest(n, ctx.rng), ctx.rng, missing=True, headerless=True)
         chunk = 1 + ctx.rng.below(n)
         w = 2 + ctx.rng.below(2)
         ch = [ctx.rng.below(3) for _ in range(ctx.rng.below(12))]
@@ -143,7 +154,7 @@ def gen_cases(ctx):
     # free-running stress: the production pool size, chunk size 1
     for _ in range(400 if quick else 30000):
         n = 3 + ctx.rng.below(4)
-        fs = files_of(random_forest(n, ctx.rng), ctx.rng)
+        fs = files_of(random_forest(n, ctx.rng), ctx.rng, headerless=True)
         cases.append("tree %s %d 7 free -" % (fs, 1 + ctx.rng.below(2)))
         ctx.count("free-7-workers n=%d" % n)
     # wide stars under free-running workers: many chunks link their class to ONE parent at the same time
@@ -214,6 +225,8 @@ def use_site_failures(case, ans, us):
     files = {}
     for f in case.split()[1].split(","):
         p = f.split(":")
+        if len(p) > 4 and "n" in p[4]:
+            continue            # no class header: not a class, declares nothing for the forest
         files[p[0].upper()] = ((p[1].upper() if p[1] != "-" else None), [m.upper() for m in (p[2].split("+") if len(p) > 2 and p[2] != "-" else [])])
     decl = dict(w.split("=", 1) for w in ans.split(" ") if "=" in w)
     got = dict(w.split("=", 1) for w in us if "=" in w)
